@@ -106,11 +106,29 @@ def validSecretNameInput : Option (List Char) → Bool
 
 /-! ### the call sites: `auth/auth/auth.py` `insert_new_user` → `check_valid_new_user` -/
 
-/-- Whether `insert_new_user(db, username, login_id, is_developer, is_service_account, hail_credentials_secret_name=secret)`
-reaches its `INSERT INTO users`, for arguments that pass the other checks of `check_valid_new_user` (a `str` username, a
-non-empty `login_id`, boolean flags not both set, no existing user with that name or login): the secret name is validated
-first (`AuthUserError` otherwise), then `check_valid_new_user` raises `InvalidUsername` unless `is_valid_username`. -/
+/-- a `login_id` argument as far as the code looks at it: `None`, the empty string, or a non-empty string
+(`not login_id` is true for the first two) -/
+inductive LoginId where
+  | none | empty | value
+
+def LoginId.truthy : LoginId → Bool
+  | .value => true
+  | _ => false
+
+/-- Whether `insert_new_user(db, username, login_id, is_developer, is_service_account, hail_identity=…,
+hail_credentials_secret_name=secret)` reaches its `INSERT INTO users`, for a `str` username, boolean flags and no
+existing user with that name or login: the secret name is validated first (`AuthUserError` otherwise), then
+`check_valid_new_user` raises `MultipleUserTypes` for a developer service account, `EmptyLoginID` for a non-service
+account without login id, and `InvalidUsername` unless `is_valid_username` — **for every kind of account**. -/
+def insertReachedFor (username : List Char) (loginId : LoginId) (isDeveloper isServiceAccount : Bool)
+    (secret : Option (List Char)) : Bool :=
+  validSecretNameInput secret                      -- validate_credentials_secret_name_input(...)
+    && !(isDeveloper && isServiceAccount)          -- MultipleUserTypes
+    && (isServiceAccount || loginId.truthy)        -- `if not is_service_account and not login_id: raise EmptyLoginID`
+    && validUsername username                      -- `if not is_valid_username(username): raise InvalidUsername`
+
+/-- the ordinary sign-up: a human account with a login id -/
 def insertReached (username : List Char) (secret : Option (List Char)) : Bool :=
-  validSecretNameInput secret && validUsername username
+  insertReachedFor username .value false false secret
 
 end HailVerif.Names
